@@ -146,6 +146,19 @@ Theorem C05_kf6_refuted :
   ~ in_effective_type rx_w (BEnum [([x61], 0)]) false [mkS None None []] (VOne (SEnumName [x7a; x7a])).
 Proof. exact kf6_refuted. Qed.
 
+(** Unions of integer types: conversion never crashes; with unrestricted members the conversion
+    is exactly union membership; a member's own range is ignored (finding 3). *)
+Theorem C05_union_unrestricted : forall ms z,
+  union_accept (map (fun k => (k, None)) ms) z = Accepted <-> in_union (map (fun k => (k, None)) ms) z.
+Proof. exact union_unrestricted. Qed.
+Theorem C05_union_no_panic : forall ms z, union_accept ms z <> Panicked.
+Proof. exact union_no_panic. Qed.
+Print Assumptions C05_union_unrestricted.
+Theorem C05_kf3_refuted :
+  union_accept kf3_members 50 = Accepted /\
+  ~ in_union [(I8, Some [mkAlt (BdNum 1 0) (BdNum 10 0)]); (I16, Some [mkAlt (BdNum 100 0) (BdNum 200 0)])] 50.
+Proof. exact kf3_refuted. Qed.
+
 (** The code before the repairs: panic on the keywords and on bounds outside the Go type; levels
     of a typedef chain OR-ed (typedef 0..100 narrowed to 1..10 accepted 50). *)
 Theorem C05_pinned_panics :
